@@ -92,6 +92,18 @@ CLAIMED = {
             "(integer tables stay native int64 in the engine: a wrapping factorial table is seen). NOT claimed: orthonormality "
             "as the grid is refined (limit), float rounding of sqrt for j > 2^50",
             "mode grids are concrete (trigonometric values evaluated in floating point as the code does); gamma entries are exact algebraic numbers (float32 storage outside)."),
+    "C13": ("4 C13", "the part of the Karhunen-Loeve construction that is decidable once numpy.linalg.eigh is replaced by its CONTRACT (ascending "
+            "eigenvalues, V^T V = I, M V = V diag(w); fresh symbols - not by the property): gkl_fcom on a SYMBOLIC kernel array (symmetric, every "
+            "entry a free real; nr = 2 with 3 azimuthal orders quick, up to nr = 3 / 4 orders thorough) and symbolic obscuration, on every path of "
+            "the eigenvalue-order decisions: returned variances non-increasing; orders >= 1 come as consecutive cos/sin pairs (azimuthal indices "
+            "2m-1, 2m) with one variance and one radial function; no larger eigenvalue of the orders used is left out; radial functions "
+            "orthonormal with the normalisation that makes the polar functions orthonormal over the pupil; every returned (variance, function) is "
+            "an eigenpair of the kernel of ITS azimuthal order (piston-filtered relation for order 0); order-0 functions are piston free. "
+            "gkl_azimuthal = 1 / cos / sin(m theta) rows, mutually orthogonal with mean squares 1, 1/2 (concrete grids); gkl_radii = equal-area grid "
+            "for symbolic ri; piston_orth orthogonal with a constant last column. NOT claimed: that the kernel handed to eigh is the azimuthal "
+            "transform of the Kolmogorov structure function (discretisation accuracy), positivity of the variances and tip/tilt first (facts "
+            "about that kernel), the Cartesian resampling (scipy.ndimage.map_coordinates) and the returned pupil",
+            "eigh by contract; kernel eigenvalues assumed positive (used for the piston clause only); paths that exhaust the available azimuthal orders are not examined."),
     "C14": ("5 C14", "circle(r,n,c,origin) is exactly the indicator of pixel centres within r of c on every feasible path (symbolic r>=0 and centre, "
             "both origins, n<=4 quick / <=6 thorough: boundary-touching, half-pixel and off-array centres included) - nesting, symmetry and "
             "integer-shift translation are consequences; findActiveSubaps returns exactly the row-major cells with mean>=threshold with "
@@ -138,9 +150,6 @@ CLAIMED = {
 }
 
 NOT_APPLICABLE = {
-    "C13": "Karhunen-Loeve modes are the output of LAPACK eigh on matrices of FFTs of r^(5/3) at irrational radii, followed by "
-           "eigenvalue-order selection and ndimage.map_coordinates: axiomatising eigh would assume the property, and nlsat does "
-           "not decide the eigenvalue-order branches even at nr=3 (DESIGN.md section 4, C13)",
 }
 
 PENDING_REASON = "check not built yet in this session (planned, see DESIGN.md section 6); not claimed until its check exists"
